@@ -14,6 +14,7 @@
  *   h_run_init     base case: console_init (any prior content of the object), first console_run reaches the wait point
  *   h_run_wait     step: any invariant state at the wait point, any next character
  *   h_run_spawn    step: a command that yielded / waits is resumed
+ *   h_process      console_process: character into the ring, console run until it no longer yields
  *   h_prompt       do_prompt contract
  *   h_tokenize     do_tokenize contract on every 80-byte buffer content (complete: loop bound 80 is a constant)
  *   h_tok_equiv    do_tokenize against a reference tokenizer written from the statement (bounded: short lines)
@@ -24,7 +25,6 @@
  *   h_putchar      console_putchar: byte into the ring, fibre made runnable
  *   h_eval_step    console_eval: one invocation from its start or its yield point (memory safety, frame)
  *   h_eval_seq     console_eval + console fibre, sequence level: text delivered once, injection completes (bounded)
- *   h_stream       console_process over a short stream from console_init, everything real: edited line -> dispatch (bounded)
  *
  * The resume labels of console_run / console_eval are __LINE__-derived; they are learnt by running the real function
  * once (learn_labels), never hard-coded.
@@ -44,14 +44,26 @@
  */
 void *memset(void *s, int c, size_t n)
 {
-	for (size_t i = 0; i < n; i++)
-		((unsigned char *)s)[i] = (unsigned char)c;
+	if (n > 0) { /* as cbmc's own model: whole-array primitives, which keep constant propagation alive */
+		(void)*(char *)s;
+		(void)*(((char *)s) + n - 1);
+		unsigned char s_n[n];
+		__CPROVER_array_set(s_n, (unsigned char)c);
+		__CPROVER_array_replace((unsigned char *)s, s_n);
+	}
 	return s;
 }
 void *memcpy(void *d, const void *s, size_t n)
 {
-	for (size_t i = 0; i < n; i++)
-		((unsigned char *)d)[i] = ((const unsigned char *)s)[i];
+	if (n > 0) {
+		(void)*(char *)d;
+		(void)*(const char *)s;
+		(void)*(((char *)d) + n - 1);
+		(void)*(((const char *)s) + n - 1);
+		char src_n[n];
+		__CPROVER_array_copy(src_n, (char *)s);
+		__CPROVER_array_replace((char *)d, src_n);
+	}
 	return d;
 }
 int memcmp(const void *a, const void *b, size_t n)
@@ -142,7 +154,10 @@ bool fibre_run_atomic(fibre_t *f)
 #define EQ_LEN 8  /* h_tok_equiv: line length */
 #endif
 #ifndef TEXT_LEN
-#define TEXT_LEN 17 /* h_eval_seq: injected text */
+#define TEXT_LEN 6 /* h_eval_seq: injected text */
+#endif
+#ifndef EVQ_PREFILL
+#define EVQ_PREFILL 12 /* h_eval_seq: unread characters in the ring when the injection starts (room for 3) */
 #endif
 #ifndef STREAM_LEN
 #define STREAM_LEN 5 /* h_stream */
@@ -169,6 +184,7 @@ static unsigned ring_w(console_t *c) { return atomic_load(&c->ring.writei); }
 
 /* ---------------------------------------------------------------------------------- the command contract */
 static pt_state_t gen_ret;                       /* what the command returns this time */
+static unsigned gen_yields;
 static bool gen_scribble; static unsigned gen_idx; static uint8_t gen_val; static pt_t gen_pt;
 static unsigned cmd_calls, cmd_at, tok_calls, tok_at, find_calls, find_at, prompt_calls;
 static bool cmd_args_ok, cmd_fresh, cmd_pt_zero;
@@ -200,6 +216,10 @@ static pt_state_t cmd_generic(console_t *c)
 	if (gen_scribble)
 		((uint8_t *)&c->scratch)[gen_idx % sizeof(c->scratch)] = gen_val;
 	c->pt = gen_pt;
+	if (gen_yields > 0) { /* h_process: yields this many times before it returns gen_ret */
+		gen_yields--;
+		return PT_YIELDED;
+	}
 	return gen_ret;
 }
 
@@ -243,6 +263,10 @@ unsigned nondet_unsigned(void);
  */
 static int stub_k;
 
+struct line80 {
+	char b[CON_LINE];
+};
+struct line80 nondet_line80(void);
 void do_tokenize_contract(console_t *c);
 void do_tokenize_contract(console_t *c)
 {
@@ -250,16 +274,19 @@ void do_tokenize_contract(console_t *c)
 	tok_calls++;
 	tok_at = ++seq_no;
 	cmd_fresh = true;
-	for (int j = 0; j < CON_LINE; j++)
-		tok_line_ok = tok_line_ok && (uint8_t)c->scratch.buf[j] == expect_line[j];
-	for (int j = 1; j < CON_LAST; j++)
-		if (nondet_bool())
-			c->scratch.buf[j] = 0;
+	/* the line is read and written as a whole (one aggregate copy each way is far cheaper than 80 byte accesses into the union) */
+	struct line80 old = *(struct line80 *)c->scratch.buf, new = nondet_line80();
+	for (int j = 0; j < CON_LINE; j++) {
+		tok_line_ok = tok_line_ok && (uint8_t)old.b[j] == expect_line[j];
+		/* TOK post, line: separators and quotes become NUL, everything else stays; bytes 0 and 79 are not written */
+		__CPROVER_assume(new.b[j] == old.b[j] || (new.b[j] == 0 && j != 0));
+	}
+	*(struct line80 *)c->scratch.buf = new;
 	int n = nondet_int();
 	__CPROVER_assume(n >= 1 && n <= CON_ARGS);
 	c->argc = n;
 	unsigned z = nondet_unsigned(); /* a NUL inside the line for the unused arguments */
-	__CPROVER_assume(z <= CON_LAST && c->scratch.buf[z] == 0);
+	__CPROVER_assume(z <= CON_LAST && new.b[z] == 0);
 	c->argv[0] = c->scratch.buf;
 	for (int i = 1; i < CON_ARGS; i++) {
 		unsigned o = nondet_unsigned();
@@ -271,7 +298,8 @@ void do_tokenize_contract(console_t *c)
 void find_command_contract(console_t *c);
 void find_command_contract(console_t *c)
 {
-	VASSERT(FIND_PRE(c), "C15 find_command is called with a well-formed table and argv[0] a string inside the line buffer (precondition of its contract)");
+	/* the table part of FIND_PRE is static state console_run has no access path to: it is asserted by the harness after the run */
+	VASSERT(con_line_off(c, c->argv[0]) >= 0 && CON_LAST_NUL(c), "C15 find_command is called with argv[0] a NUL-terminated string inside the line buffer (precondition of its contract)");
 	find_calls++;
 	find_at = ++seq_no;
 	int s = tbl_sentinel();
@@ -317,6 +345,7 @@ static void learn_labels(void)
 	gen_ret = PT_YIELDED;
 	gen_scribble = false;
 	gen_pt = 0;
+	gen_yields = 0;
 	STUB_K(0);
 	learn_ok = console_run(&C) == PT_WAITING; /* empty ring: the wait point */
 	lbl_wait = C.fibre.priv;
@@ -464,6 +493,7 @@ static void command_from_inputs(void)
 	gen_idx = IN.scr_idx;
 	gen_val = IN.scr_val;
 	gen_pt = IN.cmd_pt;
+	gen_yields = 0;
 }
 
 /* after a command has run to its end the console is ready for the next line */
@@ -562,15 +592,27 @@ void h_run_wait(void)
 			VASSERT(con_tail_zero(&C), "C15 console invariant re-established: the line buffer holds exactly the edited line (bytes at and after the cursor are zero)");
 		}
 	}
+#if !defined(RUN_CASE) || RUN_CASE == 0
 	VCOVER(ch == '\n' && k == 0, "empty line");
 	VCOVER(ch != '\n' && k == CON_LAST && code == PT_EXITED, "buffer full");
-	VCOVER(ch == '\b' && k == 0, "backspace at the start");
-	VCOVER(ch == '\b' && k == CON_LAST - 1, "backspace near the end");
-	VCOVER(ch == 3 && k > 5, "Ctrl-C");
-	VCOVER(ch == 'a' && k == CON_LAST - 1, "last storable position");
+#if RUN_K == 0
 	VCOVER(dispatch && code == PT_WAITING, "command blocks");
 	VCOVER(dispatch && code == PT_FAILED, "command fails");
+#else
 	VCOVER(dispatch && sentinel, "unknown command");
+#endif
+#endif
+#if !defined(RUN_CASE) || RUN_CASE == 1
+	VCOVER(ch == '\b' && k == 0, "backspace at the start");
+	VCOVER(ch == '\b' && k == CON_LAST - 1, "backspace near the end");
+#endif
+#if !defined(RUN_CASE) || RUN_CASE == 2
+	VCOVER(ch == 3 && k > 5, "Ctrl-C");
+#endif
+#if !defined(RUN_CASE) || RUN_CASE == 3
+	VCOVER(ch == 'a' && k == CON_LAST - 1, "last storable position");
+	VCOVER(ch == 0 && k == 0, "NUL character");
+#endif
 }
 
 /* step: a command is blocked (spawn point); it may have scribbled anywhere in the scratch union */
@@ -601,6 +643,62 @@ void h_run_spawn(void)
 			"C15 a command that yields or waits is resumed later: console_run returns its code and stays at the spawn point");
 	VCOVER(gen_ret == PT_EXITED && (IN.scribble & 1) && IN.scr_idx == CON_LAST && IN.scr_val != 0, "command left garbage in buf[79]");
 	VCOVER(gen_ret == PT_YIELDED, "yields again");
+}
+
+/*
+ * console_process = ringbuf_put + "run the console protothread until it no longer yields".  What one run of the
+ * protothread does with the character is the step contract above (h_run_wait / h_run_spawn); here console_run is
+ * substituted by a stub that only answers (yielded k times, then something else) and counts.
+ */
+static unsigned run_calls, run_yields;
+static pt_state_t run_final;
+static bool run_saw_char;
+static uint8_t run_expect;
+pt_state_t console_run_contract(console_t *c);
+pt_state_t console_run_contract(console_t *c)
+{
+	if (run_calls++ == 0) /* the character is in the ring before the protothread runs */
+		run_saw_char = c == &C && ring_w(c) != ring_r(c) &&
+			       (uint8_t)c->ringbuf[(ring_w(c) + sizeof(c->ringbuf) - 1) % sizeof(c->ringbuf)] == run_expect;
+	if (run_yields > 0) {
+		run_yields--;
+		return PT_YIELDED;
+	}
+	return run_final;
+}
+
+void h_process(void)
+{
+	VERIF_LOAD_INPUTS();
+	small_table();
+	VASSUME(IN.nring < sizeof(C.ringbuf) - 1);
+	arbitrary_console(IN.nring);
+	line_with_cursor();
+	VASSUME(IN.cmd_ret <= PT_FAILED && IN.cmd_ret != PT_YIELDED && IN.which <= 3);
+	run_calls = 0;
+	run_yields = IN.which;
+	run_final = (pt_state_t)IN.cmd_ret;
+	run_expect = IN.ch;
+	run_saw_char = false;
+	reset_observers();
+	struct snap s = snap_of();
+
+	console_process(&C, (char)IN.ch);
+
+#ifndef VERIF_NATIVE
+	VASSERT(run_saw_char && run_calls == IN.which + 1u,
+		"C15 console_process puts the character into the ring, then runs the console protothread until it no longer yields");
+#endif
+	VASSERT(ring_w(&C) == (s.writei + 1) % sizeof(C.ringbuf) && (uint8_t)C.ringbuf[s.writei] == IN.ch,
+		"C15 console_process delivers the character through the ring");
+	VASSERT(fixed_part_same(&s) && CON_RING_OK(&C) && fibre_runs == 0, "C15 console_process does not schedule the fibre and leaves the console's fixed part alone");
+#ifndef VERIF_NATIVE
+	VASSERT(ring_r(&C) == s.readi && args_same(&s) && scratch_same(&s, 0, sizeof(C.scratch)) && C.bufp == s.bufp && C.cmd == s.cmd && C.pt == s.pt &&
+			C.fibre.priv == s.fibre.priv,
+		"C15 console_process itself writes only the ring (everything else is done by the console protothread)");
+#endif
+	VCOVER(IN.which == 3 && IN.cmd_ret == PT_EXITED, "yields three times, then exits");
+	VCOVER(IN.which == 0 && IN.cmd_ret == PT_WAITING && s.writei == 15, "waits at once, put wraps");
 }
 
 /* do_prompt against its contract */
@@ -984,7 +1082,40 @@ void h_eval_step(void)
  * Sequence level: console_init, then console_eval is resumed until it exits while the harness plays the scheduler
  * (runs the console protothread whenever it has been made runnable).  Every byte that enters the ring is logged when
  * it appears; the log must be the text, once, and the injection must complete within `rounds` resumptions.
+ *
+ * Under CBMC the console protothread is substituted by its per-character step contract (h_run_wait, h_run_spawn),
+ * executed for every unread character, with commands that exit at once and keep no state: an executable rendering of
+ * "newline or full buffer: dispatch, then the scratch union is cleared and the cursor returns to the start; backspace:
+ * cursor back unless at the start; Ctrl-C: cleared; otherwise stored at the cursor".  (The real console_run calls the
+ * command through a function pointer; once ring indices are symbolic CBMC can no longer tell which function that is
+ * and explores every address-taken one.)  Natively the real console_run runs.
  */
+pt_state_t console_run_steps(console_t *c);
+pt_state_t console_run_steps(console_t *c)
+{
+	if (c->fibre.priv == 0) { /* base case (h_run_init): empty line, cursor at its start, protothread at the wait point */
+		memset(&c->scratch, 0, sizeof(c->scratch));
+		c->bufp = c->scratch.buf;
+		c->fibre.priv = 1;
+	}
+	for (unsigned n = 0; n < sizeof(c->ringbuf); n++) {
+		int ch = ringbuf_get(&c->ring);
+		if (ch == -1)
+			break;
+		bool full = con_line_off(c, c->bufp) >= CON_LAST;
+		if (ch == '\n' || full || ch == 3) {
+			memset(&c->scratch, 0, sizeof(c->scratch));
+			c->bufp = c->scratch.buf;
+		} else if (ch == '\b') {
+			if (c->bufp != c->scratch.buf)
+				c->bufp--;
+		} else {
+			*c->bufp++ = (char)ch;
+		}
+	}
+	return PT_WAITING;
+}
+
 void h_eval_seq(void)
 {
 	static const char alphabet[] = { 'x', ' ', '\n' };
@@ -1002,11 +1133,14 @@ void h_eval_seq(void)
 	reset_observers();
 	console_init(&C, NULL);
 	(void)console_run(&C); /* the fibre was made runnable by console_init */
+	/* typed input arrives from the interrupt handler and has not been consumed yet when the injection starts: little room in the ring */
+	for (unsigned j = 0; j < EVQ_PREFILL; j++)
+		console_putchar(&C, 'x');
 	memset(log, 0, sizeof(log));
 	PT_INIT(&ept);
 	pt_state_t r = PT_YIELDED;
 	unsigned rounds = 0;
-	const unsigned max_rounds = TEXT_LEN / (sizeof(C.ringbuf) - 1) + 2;
+	const unsigned max_rounds = TEXT_LEN / (sizeof(C.ringbuf) - 1 - EVQ_PREFILL) + 2;
 	while (rounds < max_rounds && r == PT_YIELDED) {
 		unsigned w0 = ring_w(&C);
 		r = console_eval(&ept, &C, (const char *)IN.text);
@@ -1031,102 +1165,9 @@ void h_eval_seq(void)
 		same = same && (j >= len || log[j] == IN.text[j]);
 	VASSERT(same, "C15 input injected with console_eval is executed once: the console receives exactly the injected text");
 	VASSERT(ring_r(&C) == ring_w(&C), "C15 the console has consumed the whole injection");
-	VCOVER(len == TEXT_LEN && rounds >= 2, "text longer than the ring");
-	VCOVER(len == TEXT_LEN && IN.text[3] == '\n' && IN.text[9] == '\n', "several lines");
+	VCOVER(len == TEXT_LEN && rounds >= 2, "text longer than the room in the ring");
+	VCOVER(len == TEXT_LEN && IN.text[TEXT_LEN - 1] == '\n' && rounds >= 2, "injection ends with a newline");
 }
 
-/*
- * Sequence level, everything real (no stubs): console_init, a capturing command "a" registered, then a stream of at
- * most STREAM_LEN characters through console_process.  A reference line editor + the reference tokenizer say what each
- * completed line must dispatch.
- */
-static unsigned cap_calls;
-static int cap_argc;
-static char cap_argv[CON_ARGS][STREAM_LEN + 1];
-static bool cap_inside, cap_yield_first, cap_yielded;
-static pt_state_t cmd_capture(console_t *c)
-{
-	if (cap_yield_first && !cap_yielded) {
-		cap_yielded = true;
-		return PT_YIELDED;
-	}
-	cap_yielded = false;
-	cap_calls++;
-	cap_argc = c->argc;
-	cap_inside = tok_post_args(c);
-	for (int i = 0; i < CON_ARGS; i++) {
-		int o = con_line_off(c, c->argv[i]);
-		for (unsigned j = 0; j <= STREAM_LEN; j++)
-			cap_argv[i][j] = (o >= 0 && o + j < CON_LINE) ? c->scratch.buf[o + j] : 0x7f;
-	}
-	return PT_EXITED;
-}
-static const console_cmd_t CAPTURE = CONSOLE_CMD_VAR_INIT("a", cmd_capture);
-
-void h_stream(void)
-{
-	char line[STREAM_LEN + 1];
-	unsigned k = 0;
-	VERIF_LOAD_INPUTS();
-	static const char alphabet[] = { 'a', 'b', ' ', '\b', 3, '\n' };
-	unsigned len = bounded_text(STREAM_LEN, alphabet, sizeof(alphabet));
-	cap_yield_first = IN.which & 1;
-	cap_yielded = false;
-	havoc_console();
-	reset_observers();
-	console_init(&C, NULL);
-	VASSERT(console_register(&CAPTURE) == 0, "C15 registration succeeds while the table has a free slot");
-	(void)console_run(&C);
-	memset(line, 0, sizeof(line));
-	bool ok_dispatch = true, ok_args = true, ok_unknown = true, ok_inside = true;
-	for (unsigned j = 0; j < STREAM_LEN; j++) {
-		if (j >= len)
-			break;
-		char ch = (char)IN.text[j];
-		unsigned calls0 = cap_calls, unk0 = out_unknown;
-		console_process(&C, ch);
-		/* reference editor */
-		if (ch == '\n') {
-			struct ref R;
-			ref_tokenize(line, STREAM_LEN, &R);
-			bool is_a = R.n >= 1 && R.len[0] == 1 && line[R.start[0]] == 'a' && !ref_ws(line[0]);
-			bool blank = k == 0;
-			if (is_a) {
-				ok_dispatch = ok_dispatch && cap_calls == calls0 + 1 && out_unknown == unk0;
-				ok_inside = ok_inside && cap_inside;
-				ok_args = ok_args && cap_argc == (int)(R.n > CON_ARGS ? CON_ARGS : R.n);
-				for (unsigned t = 0; t < 3; t++) /* short streams: at most three tokens */
-					for (unsigned i = 0; i <= STREAM_LEN; i++)
-						ok_args = ok_args && (t >= R.n || i > R.len[t] || cap_argv[t][i] == (i < R.len[t] ? line[R.start[t] + i] : 0));
-			} else if (!ref_ws(line[0])) {
-				ok_dispatch = ok_dispatch && cap_calls == calls0;
-				ok_unknown = ok_unknown && out_unknown == unk0 + (blank ? 0u : 1u);
-			}
-			memset(line, 0, sizeof(line));
-			k = 0;
-		} else if (ch == '\b') {
-			if (k > 0)
-				line[--k] = 0;
-			ok_dispatch = ok_dispatch && cap_calls == calls0;
-		} else if (ch == 3) {
-			memset(line, 0, sizeof(line));
-			k = 0;
-			ok_dispatch = ok_dispatch && cap_calls == calls0;
-		} else {
-			line[k++] = ch;
-			ok_dispatch = ok_dispatch && cap_calls == calls0;
-		}
-	}
-	VASSERT(ok_dispatch, "C15 each completed line dispatches the command named by the first token of the line as edited by backspace and Ctrl-C, once; nothing is dispatched in between");
-	VASSERT(ok_inside, "C15 the command is entered with at most four arguments that are NUL-terminated strings inside the line buffer");
-	VASSERT(ok_args, "C15 the arguments are those of the line as edited by backspace and Ctrl-C, split on white space");
-	VASSERT(ok_unknown, "C15 unknown lines run no registered command and are reported; empty lines are not");
-	VASSERT(CON_RING_OK(&C) && ring_r(&C) == ring_w(&C) && CON_CURSOR_OK(&C) && CON_LAST_NUL(&C) && C.bufp == C.scratch.buf + k,
-		"C15 console invariant after the stream: every character consumed, cursor at the end of the edited line");
-	VCOVER(len == STREAM_LEN && cap_calls == 2, "two dispatches of the capturing command");
-	VCOVER(len == STREAM_LEN && cap_calls == 1 && cap_argc == 2 && (IN.which & 1), "command with an argument that yields first");
-	VCOVER(len == 4 && IN.text[2] == '\b' && IN.text[3] == '\n', "backspace before newline");
-}
-
-VERIF_ENTRIES(E(h_run_init) E(h_run_wait) E(h_run_spawn) E(h_prompt) E(h_tokenize) E(h_tok_equiv) E(h_table_init) E(h_find) E(h_register)
-	      E(h_builtin) E(h_putchar) E(h_eval_step) E(h_eval_seq) E(h_stream))
+VERIF_ENTRIES(E(h_run_init) E(h_run_wait) E(h_run_spawn) E(h_process) E(h_prompt) E(h_tokenize) E(h_tok_equiv) E(h_table_init) E(h_find) E(h_register)
+	      E(h_builtin) E(h_putchar) E(h_eval_step) E(h_eval_seq))
